@@ -1,4 +1,5 @@
 import Setec.Proofs.Store
+import Setec.Generated.Facts
 /-!
 # C19 - only stale, unreferenced, undeclared secrets expire from the store
 -/
@@ -80,5 +81,28 @@ theorem stamp_persisted (s : St) (n : String) (now : Int) (c : CEntry) (h : s.m[
 /-- non-vacuity: an undeclared entry read 11 s ago with a 10 s age is expired; read 5 s ago it is not -/
 example : hasExpired 10 111 { sv := ⟨[1], 1⟩, lastAccess := 100, declared := false } = true ∧
     hasExpired 10 105 { sv := ⟨[1], 1⟩, lastAccess := 100, declared := false } = false := by decide
+
+/-- T1, translated: `(*Store).hasExpired` as regenerated from client/setec/store.go on every
+run (its if-chain turned into a Lean expression; the local `age`, which the code computes as
+now minus the entry's last access time - the zero time when it was never read, which makes
+the age exceed any configured expiry - is a parameter) is the model's expiry predicate. -/
+theorem generated_hasExpired (expiry now a : Int) (c : CEntry)
+    (ha : if c.lastAccess = 0 then a > expiry else a = now - c.lastAccess) :
+    Facts.gen_hasExpired_ok = true ∧
+    Facts.gen_hasExpired a c.declared expiry = Store.hasExpired expiry now c := by
+  refine ⟨by decide, ?_⟩
+  unfold Facts.gen_hasExpired Store.hasExpired
+  cases hd : c.declared
+  · by_cases he : expiry ≤ 0
+    · have : ¬ (expiry > 0) := by omega
+      simp [he, this]
+    · have hpos : expiry > 0 := by omega
+      by_cases hl : c.lastAccess = 0
+      · simp only [hl, if_true] at ha
+        simp [he, hpos, hl, ha]
+      · simp only [hl, if_false] at ha
+        subst ha
+        simp [he, hpos, hl]
+  · simp
 
 end Setec.C19
